@@ -2157,7 +2157,7 @@ func writeDescriptor(w *astikit.BitsWriter, d *Descriptor) (int, error) {
 
 	written := int(length) + 2
 
-	if d.Length == 0 {
+	if length == 0 {
 		return written, nil
 	}
 
